@@ -152,7 +152,12 @@ func errPropFunc(c *Ctx, fn *ssa.Function) {
 
 func runMISSERR(c *Ctx) {
 	for _, b := range backendImpls(c, backendPkgs...) {
-		missErrLoad(c, b)
+		fn := b.load
+		if len(fn.Params) < 3 || ir.ErrorResultIndex(fn.Signature) != 1 {
+			c.Undecided(fn, c.P.Pos(fn.Pos()), "signature", "Load does not have the shape (recv, ctx, name) ([]byte, error)")
+			continue
+		}
+		missErrFunc(c, rootFrame(c.P, fn), map[*ssa.Function]bool{})
 	}
 }
 
@@ -163,15 +168,22 @@ type fetch struct {
 	miss string // non-empty: fetch cannot signal a miss
 }
 
-func missErrLoad(c *Ctx, b backendImpl) {
+// missErrFunc checks the success returns of the function of frame fr (Load,
+// or a helper whose first result is the data Load returns) and, recursively,
+// the repository helpers the returned data is fetched through.
+func missErrFunc(c *Ctx, fr *frame, done map[*ssa.Function]bool) {
 	P := c.P
-	fn := b.load
-	if len(fn.Params) < 3 || ir.ErrorResultIndex(fn.Signature) != 1 {
-		c.Undecided(fn, P.Pos(fn.Pos()), "signature", "Load does not have the shape (recv, ctx, name) ([]byte, error)")
+	fn := fr.fn
+	if done[fn] {
 		return
 	}
-	nameP := fn.Params[2]
-	recv := newRecvInfo(fn)
+	done[fn] = true
+	if ei := ir.ErrorResultIndex(fn.Signature); ei < 1 || ei != fn.Signature.Results().Len()-1 {
+		c.Undecided(fn, P.Pos(fn.Pos()), "signature", "data is fetched through a helper without a trailing error result")
+		return
+	}
+	errIdx := fn.Signature.Results().Len() - 1
+	var helpers []*frame
 	type verdict struct {
 		bad  []string
 		und  []string
@@ -182,7 +194,7 @@ func missErrLoad(c *Ctx, b backendImpl) {
 	var order []*ssa.Return
 	w := &pwalker{fn: fn}
 	w.onReturn = func(st *pstate, r *ssa.Return) {
-		if len(r.Results) != 2 || nilness(st, r.Results[1]) == triYes {
+		if len(r.Results) != errIdx+1 || nilness(st, r.Results[errIdx]) == triYes {
 			return
 		}
 		v := per[r]
@@ -205,8 +217,35 @@ func missErrLoad(c *Ctx, b backendImpl) {
 			case *ssa.Extract:
 				switch t := y.Tuple.(type) {
 				case *ssa.Call:
+					// comma-ok helper: `func (s *T) get(k) ([]byte, bool) { v, ok := s.m[k]; return v, ok }`
+					if k := fr.child(t); k != nil {
+						if sr := soleReturn(k.fn); sr != nil && y.Index < len(sr.Results) {
+							if dx, isEx := ir.ResolveCell(sr.Results[y.Index]).(*ssa.Extract); isEx && dx.Index == 0 {
+								if lk, isLk := dx.Tuple.(*ssa.Lookup); isLk && lk.CommaOk {
+									f := fetch{what: "map lookup in " + k.fn.Name(), isOK: true}
+									for j, rv := range sr.Results {
+										if ox, isOx := ir.ResolveCell(rv).(*ssa.Extract); isOx && ox.Tuple == ssa.Value(lk) && ox.Index == 1 {
+											if ex := extractOf(t, j); ex != nil {
+												f.good = ex
+											}
+										}
+									}
+									if !isRootParam(lk.Index, k, 2) {
+										f.miss = "the lookup key is not the name parameter"
+									}
+									fs = append(fs, f)
+									return
+								}
+							}
+						}
+					}
 					if e, has := errorValue(t); has {
 						fs = append(fs, fetch{what: callName(t), good: e})
+						if k := fr.child(t); k != nil {
+							helpers = append(helpers, k) // the helper's own success returns are checked too
+						} else if h := t.Call.StaticCallee(); h != nil && h.Blocks != nil && isOwn(P, h) {
+							und = append(und, "data is fetched through helper "+h.Name()+", nested deeper than the rule follows")
+						}
 					}
 					for _, a := range t.Call.Args {
 						slice(a, d+1)
@@ -222,7 +261,7 @@ func missErrLoad(c *Ctx, b backendImpl) {
 					if ex := extractOf(t, 1); ex != nil {
 						f.good = ex
 					}
-					if t.Index != ssa.Value(nameP) {
+					if !isRootParam(t.Index, fr, 2) {
 						f.miss = "the lookup key is not the name parameter"
 					}
 					fs = append(fs, f)
@@ -295,7 +334,7 @@ func missErrLoad(c *Ctx, b backendImpl) {
 			default:
 				if nilness(st, f.good) == triNo {
 					v.ok = append(v.ok, "error of "+f.what+" is nil on this path")
-				} else if f.good == st.deref(r.Results[1]) {
+				} else if f.good == st.deref(r.Results[errIdx]) {
 					v.ok = append(v.ok, "data and error both come from "+f.what)
 				} else {
 					v.bad = append(v.bad, "data of "+f.what+" is returned with a possibly nil error although the error of "+f.what+" is not known to be nil")
@@ -308,11 +347,15 @@ func missErrLoad(c *Ctx, b backendImpl) {
 		c.Undecided(fn, P.Pos(fn.Pos()), "paths", "path exploration exceeded its bound")
 		return
 	}
-	_ = recv
 	if len(order) == 0 {
-		c.Undecided(fn, P.Pos(fn.Pos()), "no success return", "Load has no return that can carry a nil error")
+		c.Undecided(fn, P.Pos(fn.Pos()), "no success return", ir.FuncName(fn)+" has no return that can carry a nil error")
 		return
 	}
+	defer func() {
+		for _, k := range helpers {
+			missErrFunc(c, k, done)
+		}
+	}()
 	for i, r := range order {
 		v := per[r]
 		what := fmt.Sprintf("success return #%d of %s", i+1, ir.FuncName(fn))
